@@ -78,6 +78,15 @@ CHECKS = {
             "while still queued) is closed; a non-empty queue nobody owns is reported as stranded.",
             "Schedules are owned only at the hook points; other interleavings come from the Go scheduler plus random yields.",
             "property-based testing (rapid) with harness-owned gate schedules + randomized stress", "DESIGN.md §5 C04"),
+    "C06": ("exploration",
+            "Model-based stateful property testing: generated action sequences (mutate / subscribe with every When* kind / cancel context / "
+            "NewStateCtx / SetSchema growth / dispose) on one machine; subscriptions are made from the caller, from inside a handler of the next "
+            "mutation, or from a second goroutine while the transition is held (verif gate) between setActiveStates and processSubscriptions. "
+            "After every action every channel and state context is compared with a model evaluated on the recorded time history: must-be-closed "
+            "(lost wake-up) and must-be-open (spurious wake-up) are both asserted.",
+            "Three-valued where the documentation is silent (context ended / query true with only canceled or check transitions since). "
+            "Schedules other than the two gated windows come from handler positions only.",
+            "model-based stateful property testing (rapid) with harness-owned schedule gates", "DESIGN.md §5 C06"),
 }
 
 NOT_YET = "check not built yet in this session (planned, see DESIGN.md §9)"
